@@ -170,8 +170,9 @@ class SpecEq(Job):
     `from_step`: compare only from that 1-based step on; `only_some`: compare only where the spec is defined."""
     kind = "spec_eq"
 
-    def __init__(self, e, xs, acc=False, only_some=False, mode="q", rel=None, hop=None):
+    def __init__(self, e, xs, acc=False, only_some=False, mode="q", rel=None, hop=None, scale=1):
         self.e, self.xs, self.acc, self.only_some, self.mode, self.rel = e, xs, acc, only_some, mode, rel
+        self.scale = scale   # what `rel` is relative to besides the two values themselves (1 for unit-scale streams)
         self.hop = hop   # implementation side only: clone the view after `hop` values and continue on the clone
 
     def ops(self):
@@ -206,7 +207,7 @@ class SpecEq(Job):
             okv = False
             if self.rel is not None and la[0] == lb[0] and la[0] in "SA":
                 va, vb = la.split(" ")[1:], lb.split(" ")[1:]
-                okv = len(va) == len(vb) and all(close(dec(self.mode, x), dec(self.mode, y), 1, self.rel) for x, y in zip(va, vb))
+                okv = len(va) == len(vb) and all(close(dec(self.mode, x), dec(self.mode, y), self.scale, self.rel) for x, y in zip(va, vb))
             if not okv:
                 step = (i // 2 if self.acc else i) + 1
                 return dict(explanation="after %d values the implementation does not report what the definition gives for history %s%s"
@@ -218,11 +219,11 @@ class SpecEq(Job):
 
     def to_json(self):
         return dict(kind=self.kind, e=jexpr(self.e), xs=jvals(self.xs), acc=self.acc, only_some=self.only_some, mode=self.mode,
-                    rel=self.rel, hop=self.hop)
+                    rel=self.rel, hop=self.hop, scale=self.scale)
 
     @staticmethod
     def from_json(d):
-        return SpecEq(uexpr(d["e"]), uvals(d["xs"]), d["acc"], d["only_some"], d.get("mode", "q"), d.get("rel"), d.get("hop"))
+        return SpecEq(uexpr(d["e"]), uvals(d["xs"]), d["acc"], d["only_some"], d.get("mode", "q"), d.get("rel"), d.get("hop"), d.get("scale", 1))
 
     def shrink_candidates(self):
         xs = self.xs
@@ -233,7 +234,7 @@ class SpecEq(Job):
                     hop = self.hop if (self.hop is None or (cand is not xs[1:] and self.hop <= len(cand))) else None
                     if cand == xs[1:] and self.hop:
                         hop = self.hop - 1
-                    out.append(SpecEq(self.e, cand, self.acc, self.only_some, self.mode, self.rel, hop))
+                    out.append(SpecEq(self.e, cand, self.acc, self.only_some, self.mode, self.rel, hop, self.scale))
         return out
 
 
